@@ -166,3 +166,67 @@ func (m *Machine) ActCancelWhileCompleting(t *rapid.T) {
 	m.settle("cancel while completing")
 	m.afterStep()
 }
+
+// enterCompletingWindow finishes the last executing task of a job whose runner is held inside Finish and
+// returns that runner once the runner is there (nil if it never arrives).
+func (m *Machine) enterCompletingWindow(t *rapid.T, label string) (*JobRec, *SimRunner) {
+	cands, byJob := m.lastTaskJobs(false)
+	if len(cands) == 0 {
+		t.Skip("no job whose last task is executing")
+	}
+	j := cands[rapid.IntRange(0, len(cands)-1).Draw(t, label)]
+	o := byJob[j][0]
+	m.w.mu.Lock()
+	o.r.holdFinish = true
+	m.w.mu.Unlock()
+	m.deliver(o, Outcome{Kind: OutOK})
+	reached := false
+	for deadline := time.Now().Add(5 * time.Second); !reached && time.Now().Before(deadline); {
+		m.w.mu.Lock()
+		reached = o.r.inFinish
+		m.w.mu.Unlock()
+		if !reached {
+			time.Sleep(time.Microsecond)
+		}
+	}
+	if !reached {
+		m.w.mu.Lock()
+		o.r.holdFinish = false
+		o.r.holdCond.Broadcast()
+		m.w.mu.Unlock()
+		m.settle("finish")
+		m.afterStep()
+		return j, nil
+	}
+	return j, o.r
+}
+
+// ActScheduleWhileCompleting sends a schedule request for a pipeline at the instant between the end of the last
+// task of one of its jobs and the report of that job's completion.
+func (m *Machine) ActScheduleWhileCompleting(t *rapid.T) {
+	j, r := m.enterCompletingWindow(t, "completingScheduleTarget")
+	if r == nil {
+		return
+	}
+	if _, ok := m.w.Defs.Pipelines[j.Pipeline]; !ok {
+		m.w.mu.Lock()
+		r.holdFinish = false
+		r.holdCond.Broadcast()
+		m.w.mu.Unlock()
+		m.settle("finish")
+		m.afterStep()
+		return
+	}
+	m.w.Stats.hit("schedule:while-a-job-completes")
+	m.window = r
+	m.actSchedule(t, j.Pipeline)
+	if m.window != nil { // (the request was not issued)
+		m.window = nil
+		m.w.mu.Lock()
+		r.holdFinish = false
+		r.holdCond.Broadcast()
+		m.w.mu.Unlock()
+		m.settle("finish")
+		m.afterStep()
+	}
+}
